@@ -32,4 +32,8 @@ Theorem C15_nonvacuous :
   exists d' tl', dist_at (run ex_W ex_ops) (KRdDist 7) = Some (d', tl') /\
     d_debt_final ex_dist = false /\ d_debt_final d' = true /\ d_total_validators d' = 3 /\ d_epoch d' = 7.
 Proof. exact run_monoL_nonvacuous. Qed.
+Check C15_nonvacuous :
+  Forall honest_op ex_ops /\ alive ex_W ex_ops (KRdDist 7) /\
+  exists d' tl', dist_at (run ex_W ex_ops) (KRdDist 7) = Some (d', tl') /\
+    d_debt_final ex_dist = false /\ d_debt_final d' = true /\ d_total_validators d' = 3 /\ d_epoch d' = 7.
 Print Assumptions C15_nonvacuous.
